@@ -28,6 +28,27 @@ type c11Schedule struct {
 	ID    string    `json:"id"`
 	Steps []c11Step `json:"steps"`
 	Gated bool      `json:"gated"`
+	// FlushWindow: the handler of a GET is parked inside its FIRST Flush (right after the response headers went out) by a
+	// wrapper around the ResponseWriter - a gate that does not depend on where the library's own hook points sit
+	FlushWindow bool `json:"flush_window,omitempty"`
+}
+
+// c11FlushGate parks the handler after its first Flush.
+type c11FlushGate struct {
+	http.ResponseWriter
+	req  *http.Request
+	ctl  *gate.Controller
+	done bool
+}
+
+func (f *c11FlushGate) Flush() {
+	if fl, ok := f.ResponseWriter.(http.Flusher); ok {
+		fl.Flush()
+	}
+	if !f.done {
+		f.done = true
+		f.ctl.Hook("h.firstflush", f.req)
+	}
 }
 
 type c11Obs struct {
@@ -81,7 +102,7 @@ func (r *c11Run) ev(m map[string]interface{}) {
 
 func c11ActorOf(ctl **gate.Controller) func(point string, kv []interface{}) (string, string) {
 	return func(point string, kv []interface{}) (string, string) {
-		if strings.HasPrefix(point, "get.") && len(kv) > 0 {
+		if (strings.HasPrefix(point, "get.") || strings.HasPrefix(point, "h.")) && len(kv) > 0 {
 			if req, ok := kv[0].(*http.Request); ok {
 				return req.Header.Get("X-Verif-Conn"), ""
 			}
@@ -131,7 +152,16 @@ func c11RunSchedule(s c11Schedule) (res c11Result) {
 	defer mcp.VerifSetHook(nil)
 
 	srv := mcp.NewServer("verif", "1.0", mcp.WithServerPath("/mcp"), mcp.WithServerLogger(silentLogger{}))
-	ts := httptest.NewServer(srv.Handler())
+	inner := srv.Handler()
+	if s.FlushWindow {
+		ctl.Gate("h.firstflush", true)
+	}
+	ts := httptest.NewServer(http.HandlerFunc(func(w http.ResponseWriter, req *http.Request) {
+		if s.FlushWindow && req.Method == http.MethodGet {
+			w = &c11FlushGate{ResponseWriter: w, req: req, ctl: ctl}
+		}
+		inner.ServeHTTP(w, req)
+	}))
 	r := &c11Run{srv: srv, ts: ts, url: ts.URL + "/mcp", ctl: ctl, streams: map[string]*peer.Stream{}, sends: map[string]*c11Send{}}
 	defer func() {
 		ctl.ReleaseAll()
@@ -225,6 +255,9 @@ func c11RunSchedule(s c11Schedule) (res c11Result) {
 		}
 		switch st.Op {
 		case "open":
+			if s.FlushWindow {
+				ctl.Pass(st.Arg, "h.firstflush")
+			}
 			r.ev(map[string]interface{}{"e": "open", "c": st.Arg})
 			stream, err := peer.OpenSSE(ctx, http.MethodGet, r.url, map[string]string{
 				"Accept": "text/event-stream", "Mcp-Session-Id": sid, "X-Verif-Conn": st.Arg}, nil)
@@ -243,6 +276,34 @@ func c11RunSchedule(s c11Schedule) (res c11Result) {
 				fail("handler did not reach the get.flushed gate")
 				return
 			}
+		case "openheld":
+			// a GET whose handler is held inside its first Flush: the client has the headers, the handler has not moved on
+			r.ev(map[string]interface{}{"e": "open", "c": st.Arg})
+			stream, err := peer.OpenSSE(ctx, http.MethodGet, r.url, map[string]string{
+				"Accept": "text/event-stream", "Mcp-Session-Id": sid, "X-Verif-Conn": st.Arg}, nil)
+			if err != nil || stream.Status != 200 {
+				fail(fmt.Sprintf("GET failed: %v", err))
+				return
+			}
+			r.streams[st.Arg] = stream
+			res.Obs = append(res.Obs, c11Obs{Op: "open", Arg: st.Arg, Status: stream.Status, OK: true})
+			r.ev(map[string]interface{}{"e": "hdr", "c": st.Arg})
+			if !ctl.WaitParked(st.Arg, "h.firstflush", c11Wait) {
+				fail("handler did not park inside its first Flush")
+				return
+			}
+		case "probeheld":
+			// a send issued while the newest stream's handler is still inside the Flush that delivered its headers;
+			// the handler is released shortly afterwards (the send may have to wait for the stream's write lock)
+			ctl.Pass(st.Arg, "push.lookup")
+			ctl.Pass(st.Arg, "sse.write.id")
+			startSend(st.Arg, "notif")
+			time.Sleep(60 * time.Millisecond)
+			ctl.Release(st.Kind, "h.firstflush")
+			o := finishSend(st.Arg)
+			o.Op = "probe"
+			res.Obs = append(res.Obs, o)
+			r.ev(map[string]interface{}{"e": "probe", "ok": o.OK, "on": o.On})
 		case "proceed":
 			// internal step: best effort (the implementation may have no window here)
 			if s.Gated {
